@@ -507,6 +507,28 @@ fn grammar_entropy(rng: &mut Rng) -> (Vec<u8>, String) {
         e.push(1); // user present
         user_fields(rng, &mut e, &mut desc);
     }
+    if rng.chance(1, 6) {
+        // ClientPin with a key-agreement key: two (or, after a refactoring, one) length-prefixed byte fields
+        let mut e = vec![rng.next() as u8, rng.next() as u8, rng.next() as u8, 103 + rng.below(24) as u8];
+        e.push(rng.below(3) as u8); // pin protocol
+        e.extend_from_slice(&rng.bytes(4)); // sub-command choice
+        e.push(1); // key agreement present
+        let mut lens = Vec::new();
+        for _ in 0..2 {
+            let n: u64 = match rng.below(4) {
+                0 => *rng.pick(&[0u64, 1, 2, 15, 16, 17, 31, 32, 33, 47, 63, 64, 65]),
+                1 => rng.below(70),
+                2 => u64::MAX,
+                _ => 32,
+            };
+            lens.push(n);
+            e.extend_from_slice(&n.to_le_bytes());
+            let take = n.min(64) as usize;
+            e.extend_from_slice(&rng.bytes(take));
+        }
+        e.extend_from_slice(&[0u8; 48]);
+        return (e, format!("ClientPin with key agreement, coordinate length prefixes {:?}", lens));
+    }
     if rng.chance(1, 4) {
         // GetAssertion / ClientPin: the relying-party id is a borrowed &str whose length is read from
         // the END of the data (one byte while at most 256 bytes remain, two bytes big-endian beyond)
